@@ -32,7 +32,7 @@ class Suite:
 
     def __init__(self, name, engine, cases, monitor=None, nontrivial=None, model_engine=None,
                  spec_engine=None, binary=None, rule="", compare=True, exhaustive=False, timeout=300,
-                 canon=None, candidate_ok=None, shards=1, shrink=True):
+                 canon=None, candidate_ok=None, shards=1, shrink=True, canon_skip_model=()):
         self.name = name
         self.engine = engine
         self.model_engine = model_engine or engine
@@ -46,6 +46,7 @@ class Suite:
         self.exhaustive = exhaustive
         self.timeout = timeout
         self.shards = shards
+        self.skip_model = tuple(canon_skip_model)     # case-id prefixes judged by the monitor only (too large for the list model)
         self.shrink = shrink      # False: cases are minimal by construction (or too large to reduce in reasonable time)
         self.canon = canon or (lambda il, ml: (il, ml))
         self.candidate_ok = candidate_ok or (lambda ops: True)
@@ -90,7 +91,14 @@ def run_impl_seq(suite, cases, timeout):
 
 
 def run_model(engine, cases, timeout=1800):
+    """Run the Lean driver.  If it is cut off by the timeout, the case it was working on has a
+    truncated output: that case (and the ones behind it) are reported as missing, never as output."""
     rc, by, err = vlib.run_cases(vlib.AMQDRV, engine, cases, timeout)
+    if rc == -999:
+        ids = [c.cid for c in cases if c.cid in by]
+        if ids:
+            by.pop(ids[-1], None)
+        by["__model_timeout__"] = [err]
     return by
 
 
@@ -134,7 +142,11 @@ def process_suite(rep, mod, suite, model_ok, max_shrink=3):
         return
     t0 = time.time()
     impl = run_impl(suite, cases)
-    model = run_model(suite.model_engine, cases, suite.timeout) if (model_ok and suite.compare) else {}
+    mcases = [c for c in cases if not (suite.skip_model and c.cid.startswith(suite.skip_model))]
+    model = run_model(suite.model_engine, mcases, max(suite.timeout, 1800)) if (model_ok and suite.compare) else {}
+    model_cut = "__model_timeout__" in model
+    if model_cut:
+        rep.notes.append("suite %s: the Lean driver did not finish within %d s; cases without a complete model output were not compared" % (suite.name, max(suite.timeout, 1800)))
     spec = run_model(suite.spec_engine, cases, suite.timeout) if (model_ok and suite.spec_engine) else {}
     rep.evals += len(cases)
     rep.rules.append("%s: %s" % (suite.name, suite.rule))
@@ -153,7 +165,7 @@ def process_suite(rep, mod, suite, model_ok, max_shrink=3):
         v = suite.monitor(c, il, sl)
         if v:
             mon_fail.append((c, v, il))
-        if model_ok and suite.compare:
+        if model_ok and suite.compare and not (model_cut and c.cid not in model) and not (suite.skip_model and c.cid.startswith(suite.skip_model)):
             rep.compared += 1
             ml = model.get(c.cid, ["<no output>"])
             ci, cm = suite.canon(il, ml)
